@@ -128,6 +128,16 @@ Theorem C03_ws_waits_for_confirmation : forall cfg dial secure p script,
   chain None (outs (connect_ws cfg dial secure p script)) = true.
 Proof. exact connect_ws_chain. Qed.
 
+(* Limits of the reply alphabet (Model/Session.v, [sitem]): an item is what the XML reader of the
+   library (encoding/xml) delivers.  XML that is ill-formed in a way encoding/xml does not check
+   - the same attribute twice in one start tag, <iq type='error' id='1' type='result'> - is read
+   as the element with the values encoding/xml hands out and is not a separate "malformed" item:
+   well-formedness beyond what the reader checks is outside the alphabet (hunt2-C03/f4, judged
+   not a violation of the text: the server DID send type='result').  An <iq/> counts as the
+   answer to the bind / session request only in the stream's namespace and with the id of that
+   request; the stream is opened only by the opening element of the transport in use; the bind
+   result carries a non-empty JID (see the comment at [sitem]). *)
+
 (* "never hangs, never panics" are NOT theorems here.  [connect] is a total function that
    pattern-matches a finite prefix of the script (C03_seen_is_read), which only says that the
    model never waits for anything but the next server item; blocking inside the real
